@@ -43,14 +43,14 @@ Qed.
 
 Lemma covers_ev : forall s o, covers s o = true -> exists v, op_ev o = Some v /\ ev_lo v <= s <= ev_hi v.
 Proof.
-  intros s [k t a|lo hi a| |]; cbn; intros H; try discriminate.
+  intros s [k t a|lo hi a| | |old]; cbn; intros H; try discriminate.
   - exists (k, t, t). split; [reflexivity|]. cbn. lia.
   - exists (KUnused, lo, hi). split; [reflexivity|]. cbn. lia.
 Qed.
 
 Lemma ev_covers : forall s o v, op_ev o = Some v -> ev_lo v <= s -> s <= ev_hi v -> covers s o = true.
 Proof.
-  intros s [k t a|lo hi a| |] v H; cbn in *; inversion H; subst; cbn; lia.
+  intros s [k t a|lo hi a| | |old] v H; cbn in *; inversion H; subst; cbn; lia.
 Qed.
 
 (* two events of a consistent feed that share a sequence number are one event *)
@@ -232,7 +232,7 @@ Proof.
   constructor; cbn [set_next push_skipped set_skipped initial maxp next pending received skipped abandoned delivered];
     try assumption.
   - intros lo hi V Hlh. destruct (l1_range0 lo hi V Hlh) as [R|[R|R]]; [now left | right; left; lia | now right; right].
-  - intros s Hs. rewrite sk_mem_push in Hs. apply orb_true_iff in Hs as [Hs|Hs]; [now apply l1_skip0|].
+  - intros s Hs. rewrite (sk_mem_push _ _ _ _ _ li_skwf) in Hs. apply orb_true_iff in Hs as [Hs|Hs]; [now apply l1_skip0|].
     intros Hcov. destruct (covered_ev_in _ _ Hcov) as [[[k lo] hi] [V Hr]]. cbn in Hr.
     assert (Hmin : forall x, In x (pending st) -> e_seq p <= e_seq x).
     { intros x Hx. rewrite Ep in Hx, li_sorted. cbn in li_sorted. destruct Hx as [<-|Hx]; [lia|].
@@ -484,7 +484,7 @@ Proof.
   intros i m h st o C W [I L1]. split; [apply step_I0; assumption|].
   assert (Ch : feed_consistent h).
   { intros o1 o2 v w A B. apply C; now right. }
-  destruct o as [k s a|lo hi a| |]; cbn [step].
+  destruct o as [k s a|lo hi a| | |old]; cbn [step].
   - apply (process_entry_LI1 i m); try assumption; try reflexivity. intros s'; cbn. lia.
   - cbn in W. destruct (lo =? hi) eqn:E1.
     + apply (process_entry_LI1 i m); try assumption; try reflexivity.
@@ -499,6 +499,11 @@ Proof.
     + intros k s V Hs. destruct (l1_single0 k s V Hs) as [D|[P|A]]; [now left | now right; left |].
       right; right. rewrite sk_mem_app, A. apply orb_true_r.
     + intros s Hs. discriminate.
+  - apply (LI1_lift_none i h st (AbandonSome old) eq_refl (fun _ => eq_refl)) in L1. destruct L1.
+    constructor; cbn [initial maxp next pending received skipped abandoned delivered]; try assumption.
+    + intros k s V Hs. destruct (l1_single0 k s V Hs) as [D|[P|A]]; [now left | now right; left |].
+      right; right. rewrite sk_mem_app, A. apply orb_true_r.
+    + intros s Hs. apply l1_skip0. rewrite (sk_mem_split s old), Hs. reflexivity.
 Qed.
 
 Lemma feed_consistent_rev : forall ops, feed_consistent ops -> feed_consistent (rev ops).
